@@ -307,7 +307,7 @@ func Alternatives(name string) []cty.Value {
 	case ty == cty.String:
 		// the last one starts with a combining mark: concatenated after a
 		// letter it composes with that letter under NFC normalisation
-		out = []cty.Value{s("b"), s("0"), s("false"), s("a"), s("\u0301z")}
+		out = []cty.Value{s("b"), s("0"), s("false"), s("a"), s("\u0301z"), s("")}
 	case ty == cty.Bool:
 		out = []cty.Value{cty.True, cty.False}
 	case name == "nl":
